@@ -381,7 +381,17 @@ def _differential(setup, ops, safe=False):
         t1, t2 = _stress_tail(u1), _stress_tail(u2)
         if t1 != t2:
             j = next(i for i, (a, b) in enumerate(zip(t1, t2)) if a != b)
-            first = ops[raised[0]][0] if raised else "?"
+            first = "?"
+            for r in raised:  # attribute to the rejected call that alone (all other rejected calls left out) changes the tail
+                u3 = U.Universe(setup, safe)
+                for k, op in enumerate(ops):
+                    if k in rs and k != r:
+                        continue
+                    U.run_op(u3, op)
+                    u3.sweep()
+                if _stress_tail(u3) != t2:
+                    first = ops[r][0]
+                    break
             return (f"differential/later-edits/{first}", f"after rejected calls {raised} the same later edits behave differently: step {t1[j][0]} gives {t1[j][1:]} "
                     f"but {t2[j][1:]} when the rejected calls are left out")
         return None
